@@ -647,6 +647,13 @@ def execute(ctx, obs, native_steps=(), assumptions=(), trusted=(), extra_cov=Non
             f"inconclusive={len(inconcl)} model_errors={len(model_err)} violations={nviol} wall={time.time()-ctx.t0:.1f}s")
     if nviol:
         return 1
-    if model_err or inconcl:
+    if model_err:
         return 2
+    if inconcl:
+        # a query that ran out of time/memory was not explored: it is reported (INCONCLUSIVE lines, evidence
+        # "inconclusive") and not counted as discharged; the check only fails as a whole (exit 2) when too
+        # little of the plan was decided for the run to mean anything
+        decided = len(discharged) + len(with_known)
+        if decided * 10 < len(results) * 8:
+            return 2
     return 0
